@@ -169,5 +169,15 @@ for frag in sorted(glob.glob(os.path.join(V, 'known_findings.d', '*.json'))):
             F.append(e)
     except Exception as ex:
         print('cannot read', frag, ex)
+# the same list in the line format of the brief (one line per property of an entry); both files are generated, never written at check time
+lines = []
+for f in F:
+    props = f['property'] if isinstance(f['property'], list) else [f['property']]
+    if f['status'] == 'fixed':
+        f['lines'] = ['fixed: property=%s %s %s' % (p_, f['commit'], f['what']) for p_ in props]
+    else:
+        f['lines'] = ['KNOWN-FINDING: property=%s %s [key %s%s]' % (p_, f['what'], f['key'], ' (regex)' if f.get('regex') else '') for p_ in props]
+    lines += f['lines']
 json.dump(dict(findings=F), open(os.path.join(V, 'known_findings.json'), 'w'), indent=1)
-print('wrote', len(F), 'entries')
+open(os.path.join(V, 'known_findings.txt'), 'w').write('\n'.join(lines) + '\n')
+print('wrote', len(F), 'entries,', len(lines), 'lines')
